@@ -52,6 +52,8 @@ CHECKS = {
             'text': 'Facets: (1) real MIR of every ValueView method of the forwarding impls (&T, Option<T>, ValueCow Borrowed/Owned): exactly one call of the same method on the wrapped view with the same arguments, result returned unchanged; None answers like Value::Nil; (2) real MIR of ScalarSerializer/ValueSerializer::serialize_{i8..u64}: the same integer for ALL values of each type or an error when it exceeds i64. serde round-trips, JSON/YAML and derive-vs-serde equivalence are outside (generic visitor code over third-party crates).'},
     'C17': {'engine': 'E1-kani', 'technique': T_KANI, 'note': N_KANI,
             'text': 'Facet: Kani proves that DateTime equality and ordering (through ScalarCow) are chronological for two instants within +-100000 s of a base date, each displayed in any whole-hour offset -12..+14. strftime directive semantics and parse/print round-trips are not covered yet (see DESIGN.md).'},
+    'C13': {'engine': 'E2-mirsym', 'technique': T_MIR, 'note': N_MIR + '; strings are lists of symbolic code points (byte lengths derived from utf8_len); one grapheme per code point (no combining marks)',
+            'text': 'Facets built: real MIR of SliceFilter::evaluate + canonicalize_slice and TruncateFilter::evaluate on strings of 0..3 (quick) / 0..4 (thorough) symbolic Unicode characters with every i64 offset/length and symbolic ellipsis: the character-level reference result for every argument value, no panic. The other string filters and the chain-composition law are not covered yet. One known finding (truncate decides by byte length) is recorded: the repository suite pins that behaviour.'},
 }
 
 NOT_BUILT = 'not claimed yet: obligations for this property are not built in this revision (see DESIGN.md §4)'
@@ -59,5 +61,5 @@ NOT_APPLICABLE = {
     'C09': 'quantifies over histories of whole parse+render calls; needs the pest parser and HashMap-backed registers inside the solver (measured out of reach) or a frame condition that is a typing fact, not a solver query (DESIGN.md §5)',
     'C20': 'quantifies over thread schedules; Kani does not support concurrency and the MIR executor has no interleaving semantics (DESIGN.md §5)',
 }
-for _p in ['C02', 'C08', 'C12', 'C13', 'C14', 'C16', 'C19']:
+for _p in ['C02', 'C14', 'C16', 'C19']:
     NOT_APPLICABLE.setdefault(_p, NOT_BUILT)
